@@ -30,17 +30,21 @@ def could_empty(n):
     return has_remove_idiom(n)
 
 
-def list_with_lower_priority_element(n, outer=0):
-    """D18 trigger: a replacing container (a list, or a mapping tagged !del) holding an element of lower priority than the container itself"""
-    p = oracles.tag_priority(n[1])
-    here = p if p is not None else outer
+def list_with_lower_priority_element(n, inherited=None):
+    """D18 trigger: a replacing container (a list, or a mapping tagged !del) holding an element whose (effective) priority is lower than
+    the container's or lower than standard - the list pre-filter drops such an element whenever an older node of at least standard
+    priority sits at the same path. A priority tag on an ancestor applies to all descendants."""
+    own = oracles.tag_priority(n[1])
+    here = inherited if inherited is not None else (own if own is not None else 0)
+    pass_down = inherited if inherited is not None else own
+    kids = n[2] if n[0] == 'seq' else ([c for _, c in n[2]] if n[0] == 'map' else [])
     if n[0] == 'seq' or (n[0] == 'map' and tagk(n) == '!del'):
-        for c in (n[2] if n[0] == 'seq' else [c for _, c in n[2]]):
+        for c in kids:
             pc = oracles.tag_priority(c[1])
-            if pc is not None and pc < here:
+            eff = pass_down if pass_down is not None else (pc if pc is not None else 0)
+            if eff < max(here, 0):
                 return True
-    cs = [c for _, c in n[2]] if n[0] == 'map' else (n[2] if n[0] == 'seq' else [])
-    return any(list_with_lower_priority_element(c, here) for c in cs)
+    return any(list_with_lower_priority_element(c, pass_down) for c in kids)
 
 
 def plain_outcome(docs):
@@ -138,20 +142,25 @@ def judge_flag(case):
     return None
 
 
-def list_paths(n, prefix=(), outer=0, protected_only=False):
-    """paths of lists; with protected_only: lists holding an element of HIGHER priority than the list itself (D5)"""
+def list_paths(n, prefix=(), inherited=None, protected_only=False):
+    """paths of lists; with protected_only: lists holding an element of HIGHER (effective) priority than the list itself (D5)"""
     out = set()
-    p = oracles.tag_priority(n[1])
-    here = p if p is not None else outer
+    own = oracles.tag_priority(n[1])
+    here = inherited if inherited is not None else (own if own is not None else 0)
+    pass_down = inherited if inherited is not None else own
     if n[0] == 'seq':
-        prot = any((oracles.tag_priority(c[1]) or here) > here for c in n[2])
+        prot = False
+        for c in n[2]:
+            pc = oracles.tag_priority(c[1])
+            eff = pass_down if pass_down is not None else (pc if pc is not None else 0)
+            prot = prot or eff > here
         if prot or not protected_only:
             out.add(prefix)
         for i, c in enumerate(n[2]):
-            out |= list_paths(c, prefix + (i,), here, protected_only)
+            out |= list_paths(c, prefix + (i,), pass_down, protected_only)
     elif n[0] == 'map':
         for kk, c in n[2]:
-            out |= list_paths(c, prefix + (str(kk),), here, protected_only)
+            out |= list_paths(c, prefix + (str(kk),), pass_down, protected_only)
     return out
 
 
@@ -161,8 +170,9 @@ def known_sig(k, failing):
         return list_with_lower_priority_element(failing['input'][-1])
     if k['id'] == 'D5' and 'repeating the last document' in failing['failure'].get('reason', ''):
         docs = failing['input']
+        # the protected element may come from an earlier document or from the repeated document itself (it is "older" the second time)
         older = set()
-        for d in docs[:-1]:
+        for d in docs:
             older |= list_paths(d, protected_only=True)
         return bool(older & list_paths(docs[-1]))
     return False
